@@ -159,7 +159,11 @@ Section CrowdingEquiv.
     rewrite (fcs_read (fr 0) d) by (apply Hcost', Hin; lia). gstep.
     replace (Z.to_nat (Z.of_nat n - 1 - Z.of_nat 1)) with (n - 2) by lia.
     set (maxd := sub (key d (fr (n - 1))) (key d (fr 0))).
-    set (h2 := g_upd (g_upd h (fr 0) Inf) (fr (n - 1)) Inf).
+    match goal with |- context [g_for _ _ ?hh] => set (h2 := hh) end.
+    assert (H2a : h2 (fr 0) = Inf /\ h2 (fr (n - 1)) = Inf).
+    { unfold h2, g_upd. rewrite !Nat.eqb_refl. destruct (_ =? _); split; reflexivity. }
+    assert (H2c : forall r, r <> fr 0 -> r <> fr (n - 1) -> h2 r = h r).
+    { intros r Hr0 Hrn. unfold h2. rewrite !g_upd_other by assumption. reflexivity. }
     destruct (interior_spec d n front' maxd Hlen' Hnd' Hcost' (seq 1 (n - 2)) h2) as (h' & E1 & N1 & F1).
     { intros j Hj. apply in_seq in Hj. lia. }
     { apply seq_NoDup. }
@@ -167,8 +171,7 @@ Section CrowdingEquiv.
     assert (F1' : forall r, (forall j, In j (seq 1 (n - 2)) -> fr j <> r) -> h' r = h2 r) by exact F1.
     rewrite E1, g_bind_next. exists front', h'. split; [reflexivity|]. split; [|split; [exact Hperm|]].
     2:{ intros r Hr. rewrite F1.
-        - unfold h2. rewrite !g_upd_other; [reflexivity| |]; intros ->; apply Hr;
-            (eapply Permutation_in; [exact Hperm|apply Hin; lia]).
+        - apply H2c; intros ->; apply Hr; (eapply Permutation_in; [exact Hperm|apply Hin; lia]).
         - intros j Hj Heq. subst r. apply in_seq in Hj. apply Hr. eapply Permutation_in; [exact Hperm|apply Hin; lia]. }
     (* the list the model computes *)
     unfold cstep. cbv zeta.
@@ -189,15 +192,15 @@ Section CrowdingEquiv.
     unfold upd. cbv beta iota.
     destruct (Nat.eqb_spec j 0) as [->|Hj0]; cbn [orb].
     - f_equal. rewrite F1'; [|intros j' Hj' Heq; apply in_seq in Hj'; apply Hinj in Heq; lia].
-      unfold h2, g_upd. destruct (fr 0 =? fr (n - 1)); [reflexivity|]. rewrite Nat.eqb_refl. reflexivity.
+      apply H2a.
     - destruct (Nat.eqb_spec j (n - 1)) as [->|Hjn].
       + f_equal. rewrite F1'; [|intros j' Hj' Heq; apply in_seq in Hj'; apply Hinj in Heq; lia].
-        apply g_upd_same.
+        apply H2a.
       + rewrite !Hnk by lia. fold maxd.
         rewrite (N1' j) by (apply in_seq; lia). unfold newv.
         fold (fr j). fold (fr (j + 1)). fold (fr (j - 1)).
         assert (Hh2 : h2 (fr j) = h (fr j)).
-        { unfold h2. rewrite !g_upd_other; [reflexivity| |]; intros Heq; apply Hinj in Heq; lia. }
+        { apply H2c; intros Heq; apply Hinj in Heq; lia. }
         rewrite Hh2. destruct (ltb zero maxd); [|reflexivity]. rewrite eadd_fin. reflexivity.
   Qed.
 
